@@ -1405,3 +1405,34 @@ theorem populateOn_finished (H : Bytes → Bytes) (t : TreeSt) (r : Bytes) (fl :
   rw [show 3 * fl.length + 4 + 3 * t.maxD = (3 * fl.length + 3 + 3 * t.maxD) + 1 by omega]
   simp only [runLoopSt, hg]
   split <;> (try split) <;> rfl
+
+/-! ## every 80-byte header: parse then serialise / hash (same statement as C19's header_parse_serialize) -/
+
+/-- parsing any 80 bytes and re-serialising reproduces them -/
+theorem header_parse_serialize80 (s : Bytes) (hs : 80 ≤ s.length) :
+    (Wire.Header.parse s).1.serialize = some (s.take 80) := by
+  simp only [Wire.Header.parse, Wire.Header.serialize]
+  have b1 : leToNat (s.take 4) < 256 ^ 4 := by
+    have := leToNat_lt (s.take 4); simp only [List.length_take] at this
+    rwa [Nat.min_eq_left (by omega)] at this
+  have b2 : leToNat ((s.drop 4 |>.drop 32 |>.drop 32).take 4) < 256 ^ 4 := by
+    have := leToNat_lt ((s.drop 4 |>.drop 32 |>.drop 32).take 4)
+    simp only [List.length_take, List.length_drop] at this
+    rwa [Nat.min_eq_left (by omega)] at this
+  rw [natToLE_some b1, natToLE_some b2]
+  simp only [Option.pure_def, Option.bind_eq_bind, Option.bind_some, List.reverse_reverse, Option.some.injEq]
+  have e1 : natToLE' 4 (leToNat (s.take 4)) = s.take 4 := by
+    have := natToLE'_leToNat (s.take 4); simp only [List.length_take] at this
+    rwa [Nat.min_eq_left (by omega)] at this
+  have e2 : natToLE' 4 (leToNat ((s.drop 4 |>.drop 32 |>.drop 32).take 4)) = (s.drop 4 |>.drop 32 |>.drop 32).take 4 := by
+    have := natToLE'_leToNat ((s.drop 4 |>.drop 32 |>.drop 32).take 4)
+    simp only [List.length_take, List.length_drop] at this
+    rwa [Nat.min_eq_left (by omega)] at this
+  rw [e1, e2]
+  have t : s.take 80 = s.take 4 ++ (s.drop 4).take 32 ++ ((s.drop 4).drop 32).take 32
+      ++ (((s.drop 4).drop 32).drop 32).take 4 ++ ((((s.drop 4).drop 32).drop 32).drop 4).take 4
+      ++ (((((s.drop 4).drop 32).drop 32).drop 4).drop 4).take 4 := by
+    rw [show (80 : Nat) = 4 + (32 + (32 + (4 + (4 + 4)))) from rfl]
+    simp only [List.take_add, List.append_assoc]
+  rw [t]
+
